@@ -79,6 +79,9 @@ type childOp struct {
 	Value   []byte   `json:"value,omitempty"`
 	Entity  *entityJ `json:"entity,omitempty"`
 	Variant string   `json:"variant,omitempty"` // transport: "switch" | "switch+outlet" | "switch+outlet+bulb"
+	// TmpDir, when set, becomes the child's TMPDIR before anything else happens: the system's temporary directory
+	// is on another file system than the storage directory (rename across them fails with EXDEV)
+	TmpDir string `json:"tmpdir,omitempty"`
 }
 
 func accessories(variant string) (*accessory.Accessory, []*accessory.Accessory) {
@@ -116,6 +119,9 @@ func childMain(arg string) {
 	}
 	log.Info.SetOutput(io.Discard)
 	log.Debug.SetOutput(io.Discard)
+	if op.TmpDir != "" {
+		os.Setenv("TMPDIR", op.TmpDir)
+	}
 
 	var st util.Storage
 	var d db.Database
@@ -1354,6 +1360,37 @@ func main() {
 	}()
 
 	scs := buildScenarios(r)
+	// the same writes with the system's temporary directory on ANOTHER file system than the storage directory
+	// (/dev/shm): an implementation that stages its temporary file there cannot rename it into place
+	if shm, ok := otherFS(root); ok {
+		shmDir = shm
+		var more []*scenario
+		picked := map[string]int{}
+		for _, sc := range scs {
+			lim := 1
+			if sc.Kind == "set" {
+				lim = r.Pick(3, 12)
+			}
+			if picked[sc.Kind] >= lim || (sc.Kind == "set" && sc.Class == "new-key" && picked["set-new"] > 0) {
+				continue
+			}
+			if sc.Kind == "transport-config" && sc.Class != "restart-changed" {
+				continue
+			}
+			picked[sc.Kind]++
+			if sc.Class == "new-key" {
+				picked["set-new"]++
+			}
+			c := *sc
+			c.ID = sc.ID + "+tmpdir-on-another-file-system"
+			c.Op.TmpDir = shm
+			more = append(more, &c)
+		}
+		scs = append(scs, more...)
+		r.Count("scenarios_with_tmpdir_on_another_file_system", len(more))
+	} else {
+		r.Count("no_second_file_system_available", 1)
+	}
 	for i, sc := range scs {
 		sc.ID = fmt.Sprintf("%03d-%s", i, sc.ID) // unique: the id names the scenario's directory
 	}
@@ -1671,6 +1708,9 @@ func main() {
 	r.Floor("crash_points_confirmed", int(r.Counter("crash_points_confirmed")), enumerated)
 	r.Floor("scenarios_with_crash_points", len(jobs), 1)
 	r.SetExhaustive(allOK)
+	if shmDir != "" {
+		os.RemoveAll(shmDir)
+	}
 	if os.Getenv("VERIF_C19_KEEP") != "" {
 		keepRoot = true
 	} else {
@@ -1720,4 +1760,19 @@ func aftermath(dir string, sc *scenario, got snapshot) string {
 		}
 	}
 	return ""
+}
+
+var shmDir string
+
+// otherFS returns a fresh directory on a file system other than the one of dir (tmpfs under /dev/shm).
+func otherFS(dir string) (string, bool) {
+	var a, b syscall.Stat_t
+	if syscall.Stat("/dev/shm", &a) != nil || syscall.Stat(dir, &b) != nil || a.Dev == b.Dev {
+		return "", false
+	}
+	d, err := os.MkdirTemp("/dev/shm", "verif-c19-")
+	if err != nil {
+		return "", false
+	}
+	return d, true
 }
